@@ -212,7 +212,9 @@ def _check_rigid(case):
             hh = body.h(t, q, u)
             acc.close("RigidBody.h does no work (h.u=0)", np.array([hh @ u]), np.zeros(1),
                       1e-13 * max(1.0, float(np.linalg.norm(u)) ** 3), du)
-            acc.close("RigidBody.h vs -omega x Theta omega", hh[3:], -np.cross(u[3:], Theta @ u[3:]), 1e-13 * max(1.0, float(u @ u)), du)
+            # tolerance relative to the size of the inertia tensor (never looser than before for tensors of order one and above)
+            acc.close("RigidBody.h vs -omega x Theta omega", hh[3:], -np.cross(u[3:], Theta @ u[3:]),
+                      1e-13 * min(1.0, float(np.max(np.abs(Theta)))) * max(1.0, float(u @ u)), du)
             J, est = _jac(lambda x: body.h(t, q, x), u, 1e-3)
             acc.fdcmp("RigidBody.h_u vs d/du h", body.h_u(t, q, u), J, est, du)
             # angular velocity = that of the rotation along the flow
